@@ -15,9 +15,9 @@ THEOREMS = ['C04_max_pattern', 'C04_complement_bits', 'C04_eval_pattern_den', 'C
             'C04_dont_care_table_is_cone_function', 'C04_equal_patterns_equal_functions',
             'C04_complementary_patterns_negated_functions', 'C04_ConeEval_functional', 'C04_cone_eval_sound',
             'C04_ConeEval_Eval', 'C04_check_step_sound', 'C04_check_step_map_sound_Eval',
-            'C04_care_set_substitution_partial', 'C04_accepted_step_preserves_outputs', 'C04_care_covers_sound',
-            'C04_cex_ternary_and', 'C04_cex_missing_node', 'C04_example_cone', 'C04_example_simulation', 'C04_example_step_accepted', 'C04_example_step_rejected',
-            'C04_example_care_set_step']
+            'C04_care_set_substitution_partial', 'C04_accepted_step_preserves_outputs', 'C04_merge_substitution', 'C04_care_covers_sound',
+            'C04_cex_surplus_operand', 'C04_example_ternary_and', 'C04_cex_missing_node', 'C04_example_cone', 'C04_example_simulation', 'C04_example_step_accepted', 'C04_example_step_rejected',
+            'C04_example_care_set_step', 'C04_example_merge']
 PARTIAL = {
     'C04 (the property as a whole)':
         'NOT proved for the implementation: minimize_subcircuits depends on an external cut enumerator, on the model '
@@ -87,12 +87,14 @@ def correspondence(ctx, model_ok):
               'minimize_subcircuits through the shim solver; non-trivial = the call returned a circuit')
     cases = []
     runs = []
+    merges = []
     for i in range(ctx.n(250, 3000)):
         case = gen_case(ctx.rng, i)
         with patcorr.recording() as rec:
             res = subcorr.run_minimize(dict(case))
         cases.append(case)
         runs.append((case, rec.steps))
+        merges.append((case, rec.merges))
         r.add_case({k: v for k, v in case.items()}, res[0] == 'ok')
         r.count('outcome', 'returned' if res[0] == 'ok' else f'{res[1]}@{res[2]}')
         r.count('basis', case['basis'].upper())
@@ -107,6 +109,15 @@ def correspondence(ctx, model_ok):
                                     'detail': {'why': why, 'imap': st['imap'], 'omap': st['omap']}})
         else:
             r.count('step validation', 'rejected step on a run that fails end to end: ' + classify(runs[i][0], msg))
+    # the all-outputs-trivial branch (no replace_subcircuit call): before / after states through check_merge
+    for i, st, why in patcorr.validate_merges(ID, r, merges, model_ok):
+        msg = oracle(dict(merges[i][0]))
+        if msg is None:
+            r.disagreements.append({'name': 'a trivial-branch merge is rejected by the validator on a run whose '
+                                            'end-to-end oracle passes', 'case': merges[i][0],
+                                    'detail': {'why': why, 'output': st['o'], 'leaf': st['l']}})
+        else:
+            r.count('trivial-branch validation', 'rejected step on a run that fails end to end: ' + classify(merges[i][0], msg))
     # pattern operations, cone simulation, don't-care tables against the model
     patcorr.run_pattern_corr(ctx, ID, r, model_ok)
     return r
@@ -129,6 +140,14 @@ def classify(case, msg):
         return f'internal:{m.group(1)}@{m.group(2)}'
     if msg.startswith('FailedValidationError (cut family not closed'):
         return 'failed-validation:non-closed-cut-family'
+    if msg.startswith('FailedValidationError') and subcorr.has_nary_xor(case['circuit']):
+        # defect D2 (C05): the Tseytin templates of XOR/NXOR read only two operands, so the miter of two
+        # equivalent circuits with a ternary XOR can be satisfiable.  Only when the same run without
+        # validation satisfies every other clause of the property is the failure attributed to D2.
+        plain = dict(case)
+        plain['validate'] = False
+        if oracle(plain) is None:
+            return 'failed-validation:nary-xor-tseytin-D2'
     if msg.startswith('wrong function (cut family not closed'):
         return 'wrong-function:non-closed-cut-family'
     if msg.startswith('result has more non-trivial gates'):
